@@ -159,7 +159,10 @@ class SdfTransformer(Transformer):
     @staticmethod
     def start(args):
         name = next((a for a in args if isinstance(a, str)), None)
-        cells = dict(t for t in args if isinstance(t, tuple))
+        cells = dict()
+        for t in args:
+            if isinstance(t, tuple):
+                cells.setdefault(t[0], []).extend(t[1])  # an instance may have several CELL blocks
         return DelayFile(name, cells)
 
 
